@@ -48,6 +48,25 @@ def gen_T17():
     cc = _calls(close)
     for prim in ('shutil.move', 'shutil.copy', 'os.path.getsize', 'os.path.exists', 'open'):
         need(prim in cc, 'AtomicFile.close no longer calls %s' % prim)
+    # exactly ONE commit path: one shutil.move(temp, target); the only other write-capable calls are the backup copy
+    # (shutil.copy(target, backup)) and the permission probe open(target, 'a').  Anything else that can write, link or
+    # remove (copyfile/copy2/rename/replace/remove/truncate/write/...; a branch on islink) is a second commit path.
+    calls = [n for n in ast.walk(close) if isinstance(n, ast.Call)]
+    mv = [n for n in calls if ast.unparse(n.func) == 'shutil.move']
+    need(len(mv) == 1 and [ast.unparse(a) for a in mv[0].args] == ['self.tempFilename', 'self.filename'] and not mv[0].keywords,
+         'AtomicFile.close: the commit must be exactly one shutil.move(self.tempFilename, self.filename), found %r'
+         % [ast.unparse(n) for n in mv])
+    cp = [n for n in calls if ast.unparse(n.func) == 'shutil.copy']
+    need(len(cp) == 1 and len(cp[0].args) == 2 and ast.unparse(cp[0].args[0]) == 'self.filename'
+         and ast.unparse(cp[0].args[1]) == 'backupFilename',
+         'AtomicFile.close: expected exactly one shutil.copy(self.filename, backupFilename), found %r' % [ast.unparse(n) for n in cp])
+    FORBIDDEN = ('copyfile', 'copy2', 'copyfileobj', 'copytree', 'rename', 'renames', 'replace', 'remove', 'unlink', 'rmtree',
+                 'truncate', 'ftruncate', 'symlink', 'link', 'islink', 'readlink', 'realpath', 'write', 'writelines', 'sendfile',
+                 'os.open', 'fdopen', 'codecs.open', 'open_mkdir', 'touch')
+    bad = [ast.unparse(n.func) for n in calls
+           if ast.unparse(n.func).split('.')[-1] in FORBIDDEN or ast.unparse(n.func) in FORBIDDEN]
+    need(not bad, 'AtomicFile.close has a second path that writes/links/removes (model: one rename commit): %r' % bad)
+    need(len([n for n in calls if ast.unparse(n.func) == 'open']) == 1, 'AtomicFile.close: expected exactly one open(...) call')
     modes = [n.args[1].value for n in ast.walk(close) if isinstance(n, ast.Call) and ast.unparse(n.func) == 'open'
              and len(n.args) == 2 and isinstance(n.args[1], ast.Constant)]
     need(modes == ['a'], 'AtomicFile.close opens the target with mode %r (model: one open(...,"a"))' % modes)
